@@ -128,6 +128,7 @@ const (
 	v18AuthWrongHeader
 	v18AuthExtraColon
 	v18AuthEmpty
+	v18AuthCaseFlip
 	// lenient forms: RFC-wise the credentials are there; whether a proxy takes them is its business
 	v18AuthLowerScheme
 	v18AuthDupInvalidFirst
@@ -137,7 +138,7 @@ const (
 	v18AuthN
 )
 
-var v18AuthNames = []string{"valid", "none", "wrongpass", "wronguser", "badb64", "nocolon", "bearer", "schemeonly", "wrongheader", "extracolon", "empty", "lowerscheme", "dup-invalid-first", "unpadded", "spaces", "twospaces"}
+var v18AuthNames = []string{"valid", "none", "wrongpass", "wronguser", "badb64", "nocolon", "bearer", "schemeonly", "wrongheader", "extracolon", "empty", "caseflip", "lowerscheme", "dup-invalid-first", "unpadded", "spaces", "twospaces"}
 
 func v18AuthLoose(a int) bool { return a == v18AuthValid || a >= v18AuthLowerScheme }
 
@@ -218,6 +219,17 @@ func v18AuthHeader(c *v18HCase, a int) string {
 		return pa + "Basic " + b64(c.user+":"+c.pass+":") + "\r\n"
 	case v18AuthEmpty:
 		return pa + "\r\n"
+	case v18AuthCaseFlip:
+		flip := func(x string) string {
+			if y := strings.ToUpper(x); y != x {
+				return y
+			}
+			return strings.ToLower(x)
+		}
+		if len(c.user)%2 == 0 {
+			return pa + "Basic " + b64(flip(c.user)+":"+c.pass) + "\r\n"
+		}
+		return pa + "Basic " + b64(c.user+":"+flip(c.pass)) + "\r\n"
 	case v18AuthLowerScheme:
 		return pa + "bAsIc " + good + "\r\n"
 	case v18AuthDupInvalidFirst:
@@ -403,6 +415,12 @@ func v18GenHCase(rt *rapid.T) *v18HCase {
 	}
 	c.user = gen(ual, "cfgUser")
 	c.pass = gen(pal, "cfgPass")
+	switch rapid.IntRange(0, 7).Draw(rt, "cfgCase") {
+	case 0:
+		c.user, c.pass = strings.ToLower(c.user), strings.ToLower(c.pass)
+	case 1:
+		c.user, c.pass = strings.ToUpper(c.user), strings.ToUpper(c.pass)
+	}
 	n := rapid.SampledFrom([]int{1, 1, 2}).Draw(rt, "nconns")
 	for i := 0; i < n; i++ {
 		c.conns = append(c.conns, v18GenHConn(rt, c, i))
